@@ -79,6 +79,19 @@ class Ctx:
         return True
 
 
+def unknown_callable(c, what):
+    """A callable without a table row: the analysis knows neither its result nor its effects.
+    It is recorded (eng.unknown_calls) and treated as opaque - result = its call term, may raise
+    anything, impure.  A run that meets such a call reports its definite violations, and exits 2
+    (no verdict) if it found none."""
+    c.w.eng.unknown_calls.setdefault((c.callee, c.site.loc()), "%s at %s" % (what, c.site))
+    s1 = c.s.copy()
+    s1.ev("unknown-call", c.site, c.callee)
+    c.rz("Exception", "call of %s, which has no row in the may-raise table" % what, pure=False, origin="unknown-callable")
+    c.ret(None, pure=False, state=s1)
+    return c.outs
+
+
 # ====================================================================== builtins
 BUILTINS = {}
 
@@ -472,7 +485,7 @@ def apply_builtin(w, e, name, args, kwargs, s):
         if isinstance(o, type) and issubclass(o, BaseException):
             c.ret(("excobj", name), pure=False)
             return c.outs
-        raise AnalysisError("no table row for builtin %s() at %s" % (name, c.site))
+        return unknown_callable(c, "builtin %s()" % name)
     fn(c)
     return c.outs
 
@@ -780,7 +793,7 @@ def apply_ext(w, e, dotted, args, kwargs, s):
                 break
     if fn is None:
         # Class.method on a library class reached through a repo subclass / alias
-        raise AnalysisError("no table row for external callable %s at %s" % (dotted, c.site))
+        return unknown_callable(c, "external callable %s" % dotted)
     fn(c)
     return c.outs
 
@@ -1120,8 +1133,15 @@ def apply_method(w, e, mname, recv, args, kwargs, s):
     # library objects
     if ts is not None and ts <= {"obj:argparse"}:
         if mname == "parse_args":
-            c.rz("SystemExit", "argparse exits on bad arguments / --help", pure=False, origin="explicit")
+            c.rz("SystemExit", "argparse exits on bad arguments / --help", pure=False, origin="argparse")
             c.ret(None, pure=False)
+        elif mname in ("exit", "error"):
+            # ArgumentParser.exit(status=0, message=None) / .error(message) -> SystemExit(status / 2)
+            status = C(2) if mname == "error" else (c.arg(0, "status") or C(0))
+            s1 = s.copy()
+            s1.ev("exit", c.site, status)
+            s1.ev("call", c.site, c.callee, (recv,) + tuple(args), tuple(kwargs), ("raise", "SystemExit"))
+            c.outs.append((s1, "raise", Exc("SystemExit", [c.site], (), "explicit", "ArgumentParser.%s()" % mname)))
         elif mname in ("add_subparsers", "add_parser", "add_argument_group", "add_mutually_exclusive_group"):
             c.ret(None, ("type", c.term, frozenset(["obj:argparse"])), pure=False)
         else:
@@ -1148,6 +1168,6 @@ def apply_method(w, e, mname, recv, args, kwargs, s):
         if not any(mname in _ATTRS[t] for t in ts):
             c.rz("AttributeError", "method .%s() does not exist on %s" % (mname, sorted(ts)), pure=False)
             return c.outs
-        raise AnalysisError("no table row for method .%s() at %s" % (mname, c.site))
+        return unknown_callable(c, "method .%s()" % mname)
     fn(c)
     return c.outs
